@@ -551,6 +551,13 @@ class Exec:
             exp["cb_must"] = [c for c in exp["cb_must"] if c == "onDisconnect"]
             exp["send_may"] = exp["send_may"] + exp["send_must"]
             exp["send_must"] = []
+        if ev2[:2] == ("router", "ABORT") and x1:
+            # the router ended the handshake in the same turn: whether the reply to the first
+            # message (AUTHENTICATE) still goes out is left open - nothing requires it
+            for c in x1["send_must"]:
+                if c in exp["send_must"]:
+                    exp["send_must"].remove(c)
+                    exp["send_may"] = exp["send_may"] + [c]
         if not self.viol:
             self.check(exp, None, "%s+%s" % (e1, ev2[-1] if ev2[0] != "lose" else "lose"), tag)
         self.invariants(tag)
